@@ -1,5 +1,6 @@
 import copy
 from dataclasses import dataclass
+from decimal import Decimal
 from typing import Any, Optional, Tuple, Union
 
 from vtlengine import AST
@@ -70,11 +71,14 @@ def _handle_literal(value: Union[str, int, float, bool]):
     elif isinstance(value, bool):
         return "true" if value else "false"
     elif isinstance(value, float):
-        decimal = str(value).split(".")[1]
-        if len(decimal) > 4:
-            return f"{value:f}".rstrip("0")
-        else:
-            return f"{value:g}"
+        # repr() is the shortest text that reads back as the same float; VTL number literals have
+        # no exponent form and need a decimal point.
+        text = repr(value)
+        if "e" in text or "E" in text:
+            text = format(Decimal(text), "f")
+        if "." not in text and "inf" not in text and "nan" not in text:
+            text += ".0"
+        return text
     return str(value)
 
 
